@@ -404,6 +404,17 @@ def markAll (desc : Bool) : List Nat → Cfg → Except CfgErr Cfg
 
 def markup (desc : Bool) (g0 : Cfg) : Except CfgErr Cfg := markAll desc (List.range g0.nodes.size) g0
 
+/-- did every walk of `markAll` end with an empty stack (i.e. within its fuel)? Decides the
+    hypothesis of `body_is_reachable_set` for a concrete graph. -/
+def markAllDone (desc : Bool) : List Nat → Cfg → Bool
+  | [], _ => true
+  | e :: rest, g =>
+    let done := !(g.get e).node.isFunctionEntry ||
+      (markLoop desc e (markFuel g) { g := g, stack := [e] }).stack.isEmpty
+    match markStep desc g e with
+    | .ok g' => done && markAllDone desc rest g'
+    | .error _ => done
+
 def Cfg.funcOfEntry (g : Cfg) (e : Nat) : Option Func := g.funcs.find? (·.entry == e)
 def Cfg.funcOfLabel (g : Cfg) (l : String) : Option Func :=
   match g.labelFunc.find? (·.1 == l) with
